@@ -204,7 +204,7 @@ void Search::go()
     ASSERT(_best_move != NO_MOVE);
     VERIF_POINT(BEFORE_BESTMOVE, this, &stop_search, &_position, _best_move, 0);
     sync_cout << "bestmove " << _position.uci(_best_move) << sync_endl;
-    VERIF_POINT(AFTER_BESTMOVE, this, &stop_search, &_position, _best_move, 0);
+    VERIF_POINT(AFTER_BESTMOVE, this, nullptr, nullptr, 0, 0);  // no member access: the GUI may already have replaced this Search
 }
 
 void Search::init_search()
